@@ -426,6 +426,9 @@ func (in *Interp) branch(c Node, thenF, elseF func()) {
 	for c := range logE {
 		cells[c] = true
 	}
+	// the merged values are observed under the path condition of the whole statement
+	in.live = saved
+	in.D.Cond = saved
 	for cell := range cells {
 		old := cell.V
 		tv, ok := valT[cell]
